@@ -3,6 +3,8 @@
 set -e
 cd "$(dirname "$0")"
 mkdir -p build evidence
+export PYTHONPATH=/repo PYTHONDONTWRITEBYTECODE=1
+/venv/bin/python -B -c "import sys; sys.path.insert(0,'harness'); import fw; fw.write_coqproject()"
 cd coq
 coq_makefile -f _CoqProject -o Makefile > /dev/null
 timeout 3000 make -j16
